@@ -31,6 +31,21 @@ func c06Build(c *engine.C, idx int) c06File {
 	}
 	n := []int{2, 0, 1, 3, 4}[c.Choose(5, pfx+"imports")]
 	sep := engine.PickTag(c, pfx+"between-imports", "nothing", "blank-line", "comment-line")
+	if c.Bool(pfx + "marker-interface-with-left-over-imports") {
+		// a type with an empty body: no reference of any kind is recorded for this file; all its imports are unused
+		c.Tag("marker-interface")
+		for i := 0; i < n; i++ {
+			if i > 0 && sep == "blank-line" {
+				add("")
+			}
+			f.drop[add(fmt.Sprintf("import lib.left.Over%d%d;", idx, i))] = true
+		}
+		add("")
+		add("public interface " + name + " {")
+		add("}")
+		add("")
+		return f
+	}
 	var body []string
 	classAnn := ""
 	throws := ""
